@@ -174,7 +174,7 @@ def run_sequence(spec, seq, w1, w2, wc, ab, g1, g2):
     return len(seq), None
 
 
-USER_MODULES = ['pass', 'view', 'fan', 'two_out', 'pass_c']
+USER_MODULES = ['pass', 'view', 'fan', 'two_out', 'pass_c', 'fancy_in', 'mixed_in']
 
 
 def user_spec(name, idx):
@@ -224,6 +224,13 @@ def user_spec(name, idx):
         if name == 'view':
             m = View(sx)
             return m, [sx], list(m.sig_out)
+        if name == 'fancy_in':      # the module consumes an index-array slice of the signal (unsorted dof list)
+            m = Pass(sx[np.array([3, 0, 2])])
+            return m, [sx], list(m.sig_out)
+        if name == 'mixed_in':      # rank-2 signal consumed through a slice mixing a basic slice with an index array
+            sX = pym.Signal('X', np.outer(x0, b0[:3]).copy())
+            m = Pass(sX[1:3, np.array([2, 0])])
+            return m, [sX], list(m.sig_out)
         if name == 'fan':
             sb = pym.Signal('b', b0.copy())
             m = Fan([sx, sb])
